@@ -54,6 +54,39 @@ fn check(loc: &str, outcome: u8) -> Option<String> {
     None
 }
 
+/// An ABSOLUTE escape lands outside <tmp> altogether (`/vfq7abs/..`): the entries of the filesystem root and of the current
+/// directory are compared before / after every location. Every name of the grammar carries the marker `vfq7` (or is one of
+/// the two literal percent forms), so whatever a broken writer creates there is recognisable, reported and removed again.
+fn root_listing() -> std::collections::BTreeSet<String> {
+    let mut out = std::collections::BTreeSet::new();
+    for d in ["/", "."] {
+        if let Ok(rd) = std::fs::read_dir(d) {
+            for e in rd.flatten() { out.insert(format!("{}{}", if d == "/" { "/" } else { "./" }, e.file_name().to_string_lossy())); }
+        }
+    }
+    out
+}
+
+fn check_abs(loc: &str, outcome: u8) -> Option<String> {
+    let before = root_listing();
+    let r = check(loc, outcome);
+    let after = root_listing();
+    let new: Vec<String> = after.difference(&before).cloned().collect();
+    let mut ours = Vec::new();
+    for n in &new {
+        let base = n.rsplit('/').next().unwrap_or("");
+        if base.contains("vfq7") || base == "%2e%2e" || base == "..%2f" {
+            ours.push(n.clone());
+            let p = std::path::Path::new(n);
+            if p.is_dir() { let _ = std::fs::remove_dir_all(p); } else { let _ = std::fs::remove_file(p); }
+        }
+    }
+    if !ours.is_empty() {
+        return Some(format!("created outside the destination directory, at an absolute location: {:?}", ours));
+    }
+    r
+}
+
 fn report(loc: &str, outcome: u8, obs: &str) {
     let hex: String = loc.bytes().map(|b| format!("{:02x}", b)).collect();
     println!("WITNESS {{\"fn\":\"open\",\"input\":{{\"location_hex\":\"{}\",\"location\":\"{}\",\"outcome\":{}}},\"observed\":\"{}\",\"expected\":\"nothing created, changed or deleted outside the destination directory\"}}",
@@ -68,7 +101,7 @@ fn search() {
         let bytes: Vec<u8> = (0..hex.len() / 2).map(|i| u8::from_str_radix(&hex[2 * i..2 * i + 2], 16).unwrap()).collect();
         let loc = String::from_utf8(bytes).unwrap();
         let outcome: u8 = inp.split("\"outcome\":").nth(1).unwrap().trim().split(|c: char| !c.is_ascii_digit()).next().unwrap().parse().unwrap();
-        let r = check(&loc, outcome);
+        let r = check_abs(&loc, outcome);
         if let Some(o) = &r { report(&loc, outcome, o); }
         println!("WSTATS {{\"evaluations\":1,\"mode\":\"replay\"}}");
         assert!(r.is_none(), "replayed input still fails");
@@ -76,8 +109,8 @@ fn search() {
     }
     let thorough = std::env::var("VERIF_TIER").map(|t| t == "thorough").unwrap_or(false);
     // the grammar of the property's quantifier: prefixes x up to `depth` segments
-    let prefixes = ["file:///", "file://host/", "http://h/", "x:", "x:/", "x://h/", "", "/", "//"];
-    let segs = ["name", ".", "..", "", "%2e%2e", "..%2f", "a\\..\\b", "/abs"];
+    let prefixes = ["file:///", "file://host/", "http://h/", "http://h//", "x:", "x:/", "x://h/", "x://h//", "", "/", "//"];
+    let segs = ["vfq7name", ".", "..", "", "%2e%2e", "..%2f", "vfq7a\\..\\vfq7b", "/vfq7abs", "..\\..\\vfq7x"];
     let depth = if thorough { 4 } else { 3 };
     let mut evals = 0u64;
     let mut found = 0;
@@ -89,7 +122,7 @@ fn search() {
                 for outcome in 0..3u8 {
                     evals += 1;
                     if found < 4 {
-                        if let Some(o) = check(&loc, outcome) { report(&loc, outcome, &o); found += 1; }
+                        if let Some(o) = check_abs(&loc, outcome) { report(&loc, outcome, &o); found += 1; }
                     }
                 }
             }
